@@ -125,7 +125,7 @@ R(op, xs) ==
                                      IN [j \in 1..n |-> IntV(RunMax(ks, j))]
       [] op.op = "first"     -> Take(xs, 1)
       [] op.op = "take"      -> Take(xs, op.n)
-      [] op.op \in {"last", "to_list", "to_array", "pad_end", "sort"} ->
+      [] op.op \in {"last", "to_list", "to_array", "pad_end", "sort", "dist"} ->
              IF op.op = "pad_end" THEN xs ELSE <<>>
       [] op.op = "distinct"  -> LET ks == KeysOf(op.f, xs) IN
              SelectSeq([j \in 1..n |-> <<j, xs[j]>>],
@@ -162,6 +162,11 @@ F(op, xs) ==
       [] op.op = "last"     -> IF n = 0 THEN <<>> ELSE <<xs[n]>>
       [] op.op \in {"to_list", "to_array"} -> <<LstV(xs)>>
       [] op.op = "sort"     -> StableSort(xs, op.f, op.reverse)
+      (* math.dist.update(reduce=True) summarised as (count, min, max): the distribution
+         of exactly this lifetime's items *)
+      [] op.op = "dist"     -> IF n = 0 THEN <<TupV(<<IntV(0), None, None>>)>>
+                               ELSE LET ks == [j \in 1..n |-> V(xs[j])] IN
+                                    <<TupV(<<IntV(n), IntV(RunMin(ks, n)), IntV(RunMax(ks, n))>>)>>
       [] op.op = "pad_end"  -> IF n = 0 THEN <<>>
                                ELSE Rep(IF IsNone(op.v) THEN xs[n] ELSE op.v, op.n)
       [] op.op = "batch"    -> IF n % op.n = 0 THEN <<>>
